@@ -81,7 +81,9 @@ def val_lt(a, b, kind):
     if kind == "f": return z3.fpLT(a, b)
     if kind == "b": return z3.And(z3.Not(a), b)
     if kind in ("T", "U"): return tocell(a).lt(tocell(b))
-    if kind == "O": return _to_e(a < b)
+    if kind == "O":
+        if a is None or b is None: return z3.BoolVal(False)
+        return _to_e(a < b)
     return a < b
 
 def np_eq(a, b, kind):
@@ -183,3 +185,14 @@ def summary_equal(a, ka, b, kb):
         elif a is None or b is None: same = T(False)
         else: same = cell_ident(a, b, "O") if ka == kb else T(False)
     return z3.Or(z3.And(na_a, na_b), z3.And(z3.Not(na_a), z3.Not(na_b), same))
+
+def as_cell(v, kind):
+    """cell term of a python-level scalar (symbolic scalar object, or a decoded concrete value)"""
+    if isinstance(v, SymStr): return v.c
+    if isinstance(v, (SymF64, SymI64, SymBool, SymDT)): 
+        if kind == "f" and isinstance(v, SymI64): return symx.fp_of_bv(v.e)
+        return v.e
+    if kind == "f": return symx.fpval(v)
+    if kind == "i" or kind in _RANGE: return z3.BitVecVal(int(v), 64)
+    if kind == "b": return z3.BoolVal(bool(v))
+    return v
